@@ -402,6 +402,15 @@ func (t *trans) expr(e ast.Expr) string {
 				}
 			}
 		}
+		// r.URL.Path of an *http.Request: a function of the request
+		if x.Sel.Name == "Path" {
+			if inner, ok := x.X.(*ast.SelectorExpr); ok && inner.Sel.Name == "URL" {
+				if tv, ok := t.info.Types[inner.X]; ok && tv.Type != nil && strings.HasSuffix(tv.Type.String(), "http.Request") {
+					t.addExtern("requestPath", "HTTPRequest → String")
+					return "(env.requestPath " + t.derefd(inner.X) + ")"
+				}
+			}
+		}
 		// r.URL.Scheme of an *http.Request: a function of the request
 		if x.Sel.Name == "Scheme" {
 			if inner, ok := x.X.(*ast.SelectorExpr); ok && inner.Sel.Name == "URL" {
@@ -760,6 +769,10 @@ func (t *trans) effectCall(c *ast.CallExpr) (handled bool, value string) {
 		case "error":
 			evArgs = append(evArgs, "(errStr "+t.expr(a)+")")
 		}
+	}
+	if name == "http.NotFoundHandler().ServeHTTP" {
+		t.pre = append(t.pre, "trace' := trace' ++ [⟨\"http.NotFound\", []⟩]")
+		return true, "()"
 	}
 	if name == "http.SetCookie" && len(c.Args) == 2 {
 		// the cookie that is set: its string and boolean fields as "Field=value" (other fields are not recorded)
@@ -2431,6 +2444,7 @@ func translate(repo string, p *pkgFiles, outPath string) {
 	spSpecs := []transSpec{
 		{fn: "CreateSessionFromAssertion", recv: "Middleware", trace: true},
 		{fn: "ServeACS", recv: "Middleware", trace: true},
+		{fn: "ServeHTTP", recv: "Middleware", as: "middlewareRoute", trace: true},
 		{fn: "GetTrackedRequests", recv: "CookieRequestTracker"},
 		{fn: "GetTrackedRequest", recv: "CookieRequestTracker"},
 		{fn: "DefaultServiceProvider", as: "defaultServiceProviderTail", anchor: "var forceAuthn *bool"},
